@@ -1,93 +1,262 @@
-"""Obligations for C15 (struct field resolution)."""
-import os
+"""Obligations for C15 (struct fields map to JSON members by the documented resolution rules)."""
 from oblib import ob
 
-BOUNDS = {"quick": "wip", "thorough": "wip"}
-ASSUMPTIONS = []
-
 DIG = "0123456789"
+TA = 'aomit,:\'\\"_-'  # tag alphabet: a o m i t , : ' \ " _ -
 
-# (type, template, alphabet ("" = all ASCII), option sets, covers)
+# VerifC15Unmarshal: (type, template, alphabet ("" = every ASCII byte), options quick, options thorough, covers by option)
+# options: 0 default, 1 MatchCaseInsensitiveNames, 2 RejectUnknownMembers, 3 both
 UNM = [
-    (1, '{"?":5}', "", (0, 1, 2, 3)),
-    (1, '{"??":5}', "AaXx_-q", (0, 1)),
-    (2, '{"?":5}', "", (0, 1, 2)),
-    (2, '{"?1":5}', "Uu-_K", (0, 1)),
-    (3, '{"?":5}', "", (0, 1, 2)),
-    (3, '{"?A":5}', "PUNpunC_", (0, 1, 2)),
-    (3, '{"p?":5}', "bBaA_", (0, 1)),
-    (4, '{"?":5}', "", (0, 1, 2, 3)),
-    (4, '{"?":"5"}', "", (0, 1)),
-    (4, '{"a?b":5}', "_-ABb", (0, 1)),
-    (4, '{"h??":"5"}', "-_1hH", (0, 1)),
-    (4, '{"t\\\\?b":5}', 'tnu\\"/', (0, 2)),
-    (4, '{"??":5}', "-_d", (0, 1)),
-    (4, '{"":5}', "", (0, 1, 3)),
-    (5, '{"??":5}', "abABxyXY_-zZgG", (0, 1, 2, 3)),
-    (5, '{"???":5}', "abAB_-xy", (0, 1)),
-    (6, '{"?":5}', "", (0, 1, 2, 3)),
-    (6, '{"b?c":5}', "_-bBx", (0, 1, 2)),
-    (6, '{"??":5}', "abcBC_k", (0, 1)),
-    (7, '{"?":5}', "", (0, 2)),
-    (7, '{"?":"5"}', "aQqz", (0, 1)),
-    (8, '{"F6?":5}', DIG, (0, 2)),
-    (8, '{"?6?":5}', "Ff" + DIG, (0, 1)),
-    (8, '{"G?":5}', "0123g", (0, 1)),
-    (9, '{"S":{"?":5}}', "", (0, 1, 2, 3)),
-    (9, '{"in":{"?":5}}', "xXyYwW_z", (0, 1)),
-    (9, '{"?":5}', "", (0, 1)),
-    (9, '{"??":{"x":5}}', "iInNsS_-", (0, 1, 2)),
-    (11, '{"?":5}', "", (0, 1, 2)),
+    (1, '{"?":5}', "", (0, 1, 2), (0, 1, 2, 3)),
+    (1, '{"??":5}', "AaXx_-q", (1,), (0, 1)),
+    (2, '{"?":5}', "", (0, 1), (0, 1, 2)),
+    (2, '{"?1":5}', "Uu-_K", (1,), (0, 1)),
+    (3, '{"?":5}', "", (0, 1), (0, 1, 2)),
+    (3, '{"?A":5}', "PUNpunC_", (0, 1, 2), (0, 1, 2)),
+    (3, '{"p?":5}', "bBaA_", (0, 1), (0, 1)),
+    (4, '{"?":5}', "", (0, 1, 2), (0, 1, 2, 3)),
+    (4, '{"?":"5"}', "", (0, 1), (0, 1)),
+    (4, '{"a?b":5}', "_-ABb", (0, 1), (0, 1)),
+    (4, '{"h??":"5"}', "-_1hH", (0, 1), (0, 1)),
+    (4, '{"t\\?b":5}', 'tnu\\"/', (0,), (0, 2)),
+    (4, '{"??":5}', "-_d", (0, 1), (0, 1)),
+    (4, '{"":5}', "", (0, 1), (0, 1, 3)),
+    (5, '{"??":5}', "abABxyXY_-zZgG", (0, 1, 2, 3), (0, 1, 2, 3)),
+    (5, '{"???":5}', "abAB_-xy", (0, 1), (0, 1)),
+    (6, '{"?":5}', "", (0, 2), (0, 1, 2, 3)),
+    (6, '{"b?c":5}', "_-bBx", (0, 1, 2), (0, 1, 2)),
+    (6, '{"??":5}', "abcBC_k", (0, 1), (0, 1)),
+    (7, '{"?":5}', "", (0, 2), (0, 2)),
+    (7, '{"?":"5"}', "aQqz", (0, 1), (0, 1)),
+    (8, '{"F6?":5}', DIG, (0, 2), (0, 2)),
+    (8, '{"?6?":5}', "Ff" + DIG, (1,), (0, 1)),
+    (8, '{"G?":5}', "0123g", (0, 1), (0, 1)),
+    (9, '{"S":{"?":5}}', "", (0, 1, 2), (0, 1, 2, 3)),
+    (9, '{"in":{"?":5}}', "xXyYwW_z", (0, 1), (0, 1)),
+    (9, '{"?":5}', "", (0, 1), (0, 1)),
+    (9, '{"??":{"x":5}}', "iInNsS_-", (0, 1, 2), (0, 1, 2)),
+    (11, '{"?":5}', "", (0, 1, 2), (0, 1, 2)),
+    (12, '{"F1??":5}', DIG, (0,), (0, 2)),
 ]
+UNM_THOROUGH = [
+    (1, '{"??":5}', "", (0, 1)),
+    (5, '{"??":5}', "", (0, 1)),
+    (5, '{"????":5}', "abAB_-", (0, 1)),
+    (5, '{"???":5}', "", (0, 1)),
+    (6, '{"???":5}', "bcBC_-k", (0, 1, 3)),
+    (3, '{"??":5}', "PpUuAaBbIiCcNn_", (0, 1, 2)),
+    (4, '{"???":5}', "aAbB_-dD", (0, 1)),
+    (9, '{"??":{"?":5}}', "iInNsSxXyY_", (0, 1)),
+    (8, '{"F??":5}', DIG, (0, 2)),
+    (8, '{"???":5}', "FfGg0126", (0, 1)),
+]
+# the diamond type (known finding KF-C15-diamond-embedding)
 UNM_DIAMOND = [(10, '{"?":5}', "XYVUxy", (0, 1, 2, 3))]
 
+# VerifC15Dup: (type, template with two members, alphabet, options quick, options thorough)
 DUP = [
-    (1, '{"?":1,"?":2}', "AaXxBq", (0, 1)),
-    (5, '{"??":1,"??":2}', "abAB_", (0, 1)),
-    (8, '{"F6?":1,"F6?":2}', DIG, (0,)),
-    (8, '{"?63":1,"?6?":2}', "Ff3456", (1,)),
-    (8, '{"G?":1,"F0?":2}', "0123", (0,)),
-    (8, '{"G?":1,"F6?":2}', "0123456", (0,)),
-    (6, '{"?":1,"?":2}', "abk", (0, 2)),
-    (6, '{"b?c":1,"?c":2}', "_bBC", (0,)),
-    (4, '{"g":"1","?":"2"}', "gGh", (0, 1)),
-    (3, '{"P?":1,"p?":2}', "AaBb", (0, 1)),
+    (1, '{"?":1,"?":2}', "AaXxBq", (0, 1), (0, 1)),
+    (5, '{"??":1,"??":2}', "abAB_", (0, 1), (0, 1)),
+    (8, '{"F6?":1,"F6?":2}', DIG, (0,), (0,)),
+    (8, '{"?63":1,"?6?":2}', "Ff3456", (1,), (1,)),
+    (8, '{"G?":1,"F0?":2}', "0123", (0,), (0,)),
+    (8, '{"G?":1,"F6?":2}', "0123456", (0,), (0,)),
+    (6, '{"?":1,"?":2}', "abk", (0, 2), (0, 2)),
+    (6, '{"b?c":1,"?c":2}', "_bBC", (0,), (0, 1)),
+    (4, '{"g":"1","?":"2"}', "gGh", (0, 1), (0, 1)),
+    (3, '{"P?":1,"p?":2}', "AaBb", (0, 1), (0, 1)),
+    (12, '{"F12?":1,"F12?":2}', DIG, (0,), (0,)),
+    (12, '{"F0?4":1,"F1?2":2}', "0123", (0,), (0,)),
+]
+DUP_THOROUGH = [
+    (5, '{"???":1,"??":2}', "abAB_-", (0, 1)),
+    (8, '{"F??":1,"F6?":2}', DIG, (0,)),
+    (12, '{"F1??":1,"F128":2}', DIG, (0,)),
+    (12, '{"F1??":1,"F064":2}', DIG, (0,)),
+    (7, '{"?":1,"?":2}', "aQqk", (0, 1, 2)),
 ]
 
-
-TA = 'aomit,:\'\\"_-'
 TAG = [
     ("?", TA), ("??", TA), ("???", TA),
     ("?,omitzero", TA), (",omit?ero", "zZ_e"), ("?,string", TA), ("a?string", ",:_-'"), ("a,string?", ",:_'s"),
     ("n,omitempty?string", ",:_"), (",case:?gnore", "iI_s"), (",case:ignore?case:strict", ",:_"), ("a,??", TA), ("-?", TA), ("?,embed", TA),
 ]
+TAG_THOROUGH = [("????", TA), ("a,???", TA), ("?,omitzero?omitempty", TA), (",case:strict?", TA), ("??,string", TA), ("?", ""), ("a,?", "")]
+
+# cover labels that must be reached (vacuity guard), reviewed by hand per obligation
+COVERS = {
+    'unm/0/t=1/opt=0': ['exact', 'invalid-json', 'unknown-ignored'],
+    'unm/0/t=1/opt=1': ['exact', 'folded', 'invalid-json', 'unknown-ignored'],
+    'unm/0/t=1/opt=2': ['exact', 'invalid-json', 'unknown-rejected'],
+    'unm/1/t=1/opt=1': ['folded', 'unknown-ignored'],
+    'unm/2/t=2/opt=0': ['exact', 'invalid-json', 'unknown-ignored'],
+    'unm/2/t=2/opt=1': ['exact', 'folded', 'invalid-json', 'unknown-ignored'],
+    'unm/3/t=2/opt=1': ['exact', 'folded', 'unknown-ignored'],
+    'unm/4/t=3/opt=0': ['exact', 'invalid-json', 'unknown-ignored'],
+    'unm/4/t=3/opt=1': ['exact', 'folded', 'invalid-json', 'unknown-ignored'],
+    'unm/5/t=3/opt=0': ['exact', 'unknown-ignored'],
+    'unm/5/t=3/opt=1': ['exact', 'folded', 'unknown-ignored'],
+    'unm/5/t=3/opt=2': ['exact', 'unknown-rejected'],
+    'unm/6/t=3/opt=0': ['exact', 'unknown-ignored'],
+    'unm/6/t=3/opt=1': ['exact', 'folded', 'unknown-ignored'],
+    'unm/7/t=4/opt=0': ['exact', 'invalid-json', 'string-option-mismatch', 'unknown-ignored'],
+    'unm/7/t=4/opt=1': ['exact', 'folded', 'invalid-json', 'string-option-mismatch', 'unknown-ignored'],
+    'unm/7/t=4/opt=2': ['exact', 'invalid-json', 'string-option-mismatch', 'unknown-rejected'],
+    'unm/8/t=4/opt=0': ['exact', 'invalid-json', 'string-option-mismatch', 'unknown-ignored'],
+    'unm/8/t=4/opt=1': ['exact', 'folded', 'invalid-json', 'string-option-mismatch', 'unknown-ignored'],
+    'unm/9/t=4/opt=0': ['exact', 'unknown-ignored'],
+    'unm/9/t=4/opt=1': ['exact', 'folded', 'unknown-ignored'],
+    'unm/10/t=4/opt=0': ['exact', 'unknown-ignored'],
+    'unm/10/t=4/opt=1': ['exact', 'folded', 'unknown-ignored'],
+    'unm/11/t=4/opt=0': ['exact', 'invalid-json', 'unknown-ignored'],
+    'unm/12/t=4/opt=0': ['unknown-ignored'],
+    'unm/12/t=4/opt=1': ['folded', 'unknown-ignored'],
+    'unm/13/t=4/opt=0': ['unknown-ignored'],
+    'unm/13/t=4/opt=1': ['folded'],
+    'unm/14/t=5/opt=0': ['ambiguous', 'exact', 'exact-preferred-over-folded', 'folded', 'unknown-ignored'],
+    'unm/14/t=5/opt=1': ['ambiguous', 'exact', 'exact-preferred-over-folded', 'unknown-ignored'],
+    'unm/14/t=5/opt=2': ['ambiguous', 'exact', 'exact-preferred-over-folded', 'folded', 'unknown-rejected'],
+    'unm/14/t=5/opt=3': ['ambiguous', 'exact', 'exact-preferred-over-folded', 'unknown-rejected'],
+    'unm/15/t=5/opt=0': ['ambiguous', 'exact', 'exact-preferred-over-folded', 'folded', 'unknown-ignored'],
+    'unm/15/t=5/opt=1': ['ambiguous', 'exact', 'exact-preferred-over-folded', 'unknown-ignored'],
+    'unm/16/t=6/opt=0': ['captured', 'exact', 'invalid-json'],
+    'unm/16/t=6/opt=2': ['captured', 'exact', 'invalid-json'],
+    'unm/17/t=6/opt=0': ['captured', 'exact', 'folded'],
+    'unm/17/t=6/opt=1': ['captured', 'exact', 'folded'],
+    'unm/17/t=6/opt=2': ['captured', 'exact', 'folded'],
+    'unm/18/t=6/opt=0': ['captured', 'folded'],
+    'unm/18/t=6/opt=1': ['captured', 'folded'],
+    'unm/19/t=7/opt=0': ['captured', 'exact', 'invalid-json'],
+    'unm/19/t=7/opt=2': ['captured', 'exact', 'invalid-json'],
+    'unm/20/t=7/opt=0': ['captured', 'string-option-mismatch'],
+    'unm/20/t=7/opt=1': ['captured', 'string-option-mismatch'],
+    'unm/21/t=8/opt=0': ['exact', 'unknown-ignored'],
+    'unm/21/t=8/opt=2': ['exact', 'unknown-rejected'],
+    'unm/22/t=8/opt=1': ['exact', 'folded', 'unknown-ignored'],
+    'unm/23/t=8/opt=0': ['exact', 'unknown-ignored'],
+    'unm/23/t=8/opt=1': ['exact', 'unknown-ignored'],
+    'unm/24/t=9/opt=0': ['exact', 'folded', 'invalid-json', 'unknown-ignored'],
+    'unm/24/t=9/opt=1': ['exact', 'folded', 'invalid-json', 'unknown-ignored'],
+    'unm/24/t=9/opt=2': ['exact', 'folded', 'invalid-json', 'unknown-rejected'],
+    'unm/25/t=9/opt=0': ['exact', 'folded', 'unknown-ignored'],
+    'unm/25/t=9/opt=1': ['exact', 'folded', 'unknown-ignored'],
+    'unm/26/t=9/opt=0': ['exact', 'invalid-json', 'shape-mismatch', 'unknown-ignored'],
+    'unm/26/t=9/opt=1': ['exact', 'folded', 'invalid-json', 'shape-mismatch', 'unknown-ignored'],
+    'unm/27/t=9/opt=0': ['exact', 'unknown-ignored'],
+    'unm/27/t=9/opt=1': ['exact', 'unknown-ignored'],
+    'unm/27/t=9/opt=2': ['exact', 'unknown-rejected'],
+    'unm/28/t=11/opt=0': ['exact', 'invalid-json', 'unknown-ignored'],
+    'unm/28/t=11/opt=1': ['exact', 'folded', 'invalid-json', 'unknown-ignored'],
+    'unm/28/t=11/opt=2': ['exact', 'invalid-json', 'unknown-rejected'],
+    'unm/29/t=12/opt=0': ['exact', 'unknown-ignored'],
+    'unmdiamond/0/t=10/opt=0': ['exact', 'unknown-ignored'],
+    'unmdiamond/0/t=10/opt=1': ['exact', 'unknown-ignored'],
+    'unmdiamond/0/t=10/opt=2': ['exact', 'unknown-rejected'],
+    'unmdiamond/0/t=10/opt=3': ['exact', 'unknown-rejected'],
+    'dup/0/t=1/opt=0': ['distinct', 'dup-same-name-same-field', 'dup-unknown-name'],
+    'dup/0/t=1/opt=1': ['distinct', 'dup-different-names-same-field', 'dup-same-name-same-field', 'dup-unknown-name'],
+    'dup/1/t=5/opt=0': ['distinct', 'dup-different-names-same-field', 'dup-same-name-same-field', 'dup-unknown-name'],
+    'dup/1/t=5/opt=1': ['distinct', 'dup-same-name-same-field', 'dup-unknown-name'],
+    'dup/2/t=8/opt=0': ['distinct', 'dup-same-name-same-field', 'dup-unknown-name'],
+    'dup/3/t=8/opt=1': ['distinct', 'dup-different-names-same-field', 'dup-same-name-same-field', 'dup-unknown-name'],
+    'dup/4/t=8/opt=0': ['distinct'],
+    'dup/5/t=8/opt=0': ['distinct'],
+    'dup/6/t=6/opt=0': ['distinct', 'dup-same-name-same-field', 'dup-unknown-name'],
+    'dup/6/t=6/opt=2': ['distinct', 'dup-same-name-same-field', 'dup-unknown-name'],
+    'dup/7/t=6/opt=0': ['distinct', 'dup-different-names-same-field'],
+    'dup/8/t=4/opt=0': ['distinct', 'dup-same-name-same-field'],
+    'dup/8/t=4/opt=1': ['distinct', 'dup-different-names-same-field', 'dup-same-name-same-field'],
+    'dup/9/t=3/opt=0': ['distinct'],
+    'dup/9/t=3/opt=1': ['distinct', 'dup-different-names-same-field'],
+    'dup/10/t=12/opt=0': ['distinct', 'dup-same-name-same-field'],
+    'dup/11/t=12/opt=0': ['distinct'],
+    'tag/0': ['clean', 'ignored', 'malformed', 'no-json-tag', 'well-formed'],
+    'tag/1': ['clean', 'ignored', 'malformed', 'no-json-tag', 'well-formed'],
+    'tag/2': ['clean', 'ignored', 'malformed', 'no-json-tag', 'well-formed'],
+    'tag/3': ['clean', 'malformed', 'no-json-tag', 'well-formed'],
+    'tag/4': ['clean', 'well-formed'],
+    'tag/5': ['clean', 'malformed', 'no-json-tag', 'well-formed'],
+    'tag/6': ['clean', 'malformed', 'well-formed'],
+    'tag/7': ['malformed', 'well-formed'],
+    'tag/8': ['clean', 'malformed', 'well-formed'],
+    'tag/9': ['bad-case', 'clean', 'well-formed'],
+    'tag/10': ['bad-case', 'malformed', 'well-formed'],
+    'tag/11': ['malformed', 'no-json-tag', 'well-formed'],
+    'tag/12': ['clean', 'ignored', 'malformed', 'no-json-tag', 'well-formed'],
+    'tag/13': ['clean', 'malformed', 'no-json-tag', 'well-formed'],
+    'unm/11/t=4/opt=2': ['exact', 'invalid-json', 'unknown-rejected'],
+}
+
+BOUNDS = {
+    "quick": "12 hand-written struct types (harness/root/zz_verif_c15.go: depth shadowing over 3 levels; ties at equal depth with 0/1/2 tagged fields and a deeper loser; embedded pointer, "
+             "embedded struct of unexported type, named embedded non-struct, `embed` option; json:\"-\", renames incl. the names \"-\", \"$%/ x\" and one with a TAB, omitzero/omitempty/string on int8; "
+             "case:ignore / case:strict / untagged mixes with exact-vs-folded rivals; map and jsontext.Value fallbacks (the latter one level down); 70 and 132 fields; nested struct values resolved per level; "
+             "a type met twice at one depth (diamond: known finding) and at two depths, self-embedding) whose JSON field lists are stated by hand from doc.go. "
+             "Marshal: each type in 4 states (all fields distinct non-zero / zero value / non-zero with nil embedded pointer / zero value under OmitZeroStructFields), concrete values: member names, order and values re-read with the reference tokenizer. "
+             "Unmarshal: one-member objects with 1-3 SYMBOLIC name bytes (every ASCII byte for 1 hole, type-specific alphabets of 5-15 letters/separators for 2-3 holes) into the zero value under "
+             "{default, MatchCaseInsensitiveNames, RejectUnknownMembers, both}: designated field set, every other field (shadowed/cancelled/ignored ones included) untouched, error iff documented. "
+             "Dup: two-member objects with 2-4 symbolic name bytes (incl. fields 60-69 and 120-131 of the big types). Fallback-vs-field duplicates on Marshal: 1 ASCII byte / 2 bytes over 8 letters. "
+             "Omit: 17 fields (int8, string, slice, map, pointer, struct, any, IsZero type; omitzero / omitempty / plain) each in all of its nil/empty/non-empty states with symbolic digit/letter contents, "
+             "against all-zero and all-set neighbours. Tag grammar: parseFieldOptions on json:\"<t>\" with t = 1-3 bytes over {a o m i t , : ' \\ \" _ -} and 11 templates around omitzero/omitempty/string/embed/case with 1-2 symbolic bytes. "
+             "10 type-validity cases. Names are ASCII; values one digit; int8 leaves.",
+    "thorough": "quick plus: every option set for every template; 2 symbolic name bytes over ALL ASCII bytes for T1/T5, 3-4 bytes over small alphabets, symbolic outer AND inner names for nested structs, "
+                "all two-digit field numbers of the 70-field type; more dup shapes (3+2 bytes, boundary fields 64/128, jsontext.Value fallback); fallback-duplicate names of 3 bytes and 2 ASCII bytes; "
+                "tags of 4 bytes over the 12-letter alphabet and 1 byte over all ASCII.",
+}
+ASSUMPTIONS = [
+    "reflect.Type/reflect.Value are the engine's go/types-backed environment model (engine/reflect.go); every sampled path is replayed natively",
+    "the expected field list of each struct type (zz15Table) and the reference matcher/tag grammar (zzspec/fields.go) are written by hand from doc.go / options.go and are the specification; "
+    "types are a fixed hand-written family, not generated: type graphs outside it (depth > 3, generic types, interface-typed embeds, v1 matching options, OmitZeroStructFields) are not covered",
+    "non-ASCII member names (Unicode case folding, e.g. U+212A KELVIN SIGN) are outside the bound; names in error messages (fmt.Errorf text) are opaque",
+    "tag reference: errors are only asserted for malformed tags, bad case values and clean tags; whether an unknown but well-formed option is reported is undocumented and left free; format is out of scope",
+    "known finding KF-C15-diamond-embedding is attributed only inside type zz15T10 for the name Y (AssertKF region)",
+]
 
 
 def obligations(tier):
+    q = tier == "quick"
     L = []
-    for t in range(1, 12):
-        for st in (0, 1, 2):
-            L.append(ob("marshal/t=%d/state=%d" % (t, st), ".", "VerifC15Marshal", [t, st], covers=["marshal-done"], max_seconds=600))
-    for i, (t, tm, al, opts) in enumerate(UNM):
-        for o in opts:
-            L.append(ob("unm/%d/t=%d/opt=%d" % (i, t, o), ".", "VerifC15Unmarshal", [t, tm, al, o], max_seconds=900, max_paths=40000))
+
+    def add(id, fn, args, **kw):
+        kw.setdefault("max_seconds", 900 if q else 3000)
+        kw.setdefault("max_paths", 40000 if q else 400000)
+        cv = COVERS.get(id)
+        if cv:
+            kw["covers"] = cv
+        L.append(ob(id, ".", fn, args, **kw))
+
+    for t in range(1, 13):
+        for st in (0, 1, 2, 3):
+            # t=10 is the diamond type: its only path ends in the known finding, before nothing else can be covered
+            add("marshal/t=%d/state=%d" % (t, st), "VerifC15Marshal", [t, st], covers=["marshal-done"] if t != 10 else [])
+    for i, (t, tm, al, oq, ot) in enumerate(UNM):
+        for o in (oq if q else ot):
+            add("unm/%d/t=%d/opt=%d" % (i, t, o), "VerifC15Unmarshal", [t, tm, al, o])
+    if not q:
+        for i, (t, tm, al, opts) in enumerate(UNM_THOROUGH):
+            for o in opts:
+                add("unmT/%d/t=%d/opt=%d" % (i, t, o), "VerifC15Unmarshal", [t, tm, al, o])
     for i, (t, tm, al, opts) in enumerate(UNM_DIAMOND):
         for o in opts:
-            L.append(ob("unmdiamond/%d/t=%d/opt=%d" % (i, t, o), ".", "VerifC15Unmarshal", [t, tm, al, o], max_seconds=900, max_paths=40000))
-    for i, (t, tm, al, opts) in enumerate(DUP):
-        for o in opts:
-            L.append(ob("dup/%d/t=%d/opt=%d" % (i, t, o), ".", "VerifC15Dup", [t, tm, al, o], max_seconds=900, max_paths=40000))
-    for n, al in ((1, ""), (2, "abBCc_-k")):
+            add("unmdiamond/%d/t=%d/opt=%d" % (i, t, o), "VerifC15Unmarshal", [t, tm, al, o])
+    for i, (t, tm, al, oq, ot) in enumerate(DUP):
+        for o in (oq if q else ot):
+            add("dup/%d/t=%d/opt=%d" % (i, t, o), "VerifC15Dup", [t, tm, al, o])
+    if not q:
+        for i, (t, tm, al, opts) in enumerate(DUP_THOROUGH):
+            for o in opts:
+                add("dupT/%d/t=%d/opt=%d" % (i, t, o), "VerifC15Dup", [t, tm, al, o])
+    for n, al in ((1, ""), (2, "abBCc_-k")) if q else ((1, ""), (2, "abBCc_-k"), (3, "bBcC_-"), (2, "")):
         for ci in (False, True):
-            L.append(ob("fbdup/n=%d/ci=%d" % (n, ci), ".", "VerifC15FallbackDup", [n, al, ci], covers=["fallback-name-hits-field", "fallback-name-free"], max_seconds=900))
+            add("fbdup/n=%d/a=%d/ci=%d" % (n, len(al), ci), "VerifC15FallbackDup", [n, al, ci], covers=["fallback-name-hits-field", "fallback-name-free"])
     for f in range(17):
         for oth in (0, 1):
-            L.append(ob("omit/field=%d/others=%d" % (f, oth), ".", "VerifC15Omit", [f, oth], max_seconds=900))
+            add("omit/field=%d/others=%d" % (f, oth), "VerifC15Omit", [f, oth], covers=["emitted"] if f in (8, 15, 16) else ["emitted", "omitted"])
     for i, (tm, al) in enumerate(TAG):
-        L.append(ob("tag/%d" % i, ".", "VerifC15Tag", [tm, al], max_seconds=900, max_paths=40000))
+        add("tag/%d" % i, "VerifC15Tag", [tm, al])
+    if not q:
+        for i, (tm, al) in enumerate(TAG_THOROUGH):
+            add("tagT/%d" % i, "VerifC15Tag", [tm, al])
     for k in range(1, 11):
-        L.append(ob("invalid/k=%d" % k, ".", "VerifC15Invalid", [k], covers=["invalid-done"]))
-    only = os.environ.get("VERIF_C15_ONLY")
-    if only:
-        L = [o for o in L if any(o["id"].startswith(p) for p in only.split(","))]
+        add("invalid/k=%d" % k, "VerifC15Invalid", [k], covers=["invalid-done"])
     return L
